@@ -267,6 +267,26 @@ def replay_record(rec: Dict[str, Any]) -> Tuple[bool, str]:
 UNOPS = ("neg", "sgn", "fact")
 
 
+def chains(depth: int) -> List[Any]:
+    """Nested operator chains: each level wraps the previous one on either side of a binary operator (the other
+    operand a leaf) or under a one-operand node.  Reaches the deep parent/child/grandchild combinations
+    (e.g. ((a+b)^y)^z, x / -(5z * -3)) that the all-trees family cannot within its size bound."""
+    inner = [("var", "x"), ("const", 0), ("mul", ("const", 0), ("var", "x"))]
+    level = inner
+    for _ in range(depth):
+        nxt: List[Any] = []
+        for t in level:
+            for op in ("add", "sub", "mul", "div", "pow"):
+                others = [("var", "y")] if op in ("add", "sub") else [("var", "y"), ("const", 0)]
+                for o in others:
+                    nxt.append((op, t, o))
+                    nxt.append((op, o, t))
+            nxt.append(("neg", t))
+            nxt.append(("sgn", t))
+        level = nxt
+    return [renumber(t) for t in level]
+
+
 def run(tier: str) -> int:
     rep = Report("C04", tier)
     n = 5 if tier == "quick" else 6
@@ -295,7 +315,17 @@ def run(tier: str) -> int:
         "must not raise. Second source of trees: every one-step rewrite result of concrete start trees.")
     rep.assumptions = ["abs() is not registered with the tokenizer, so AbsExpression is not reachable by parsing and is excluded",
                        "one-operand nodes with the operand on the left are not produced by the parser or the rules"]
-    items = [("tree", s) for s in sks + eqs] + [("rewrite", s) for s in starts]
+    ch = chains(3)
+    if tier == "quick":
+        random.Random(seed()).shuffle(ch)
+        ch = ch[:4000]
+    else:
+        ch4 = chains(4)
+        random.Random(seed()).shuffle(ch4)
+        ch = ch + ch4[:60000]
+    rep.bounds["chains"] = (f"{len(ch)} nested operator chains of depth 3" + (" (seeded sample of 4000)" if tier == "quick" else
+                            " (all) and a seeded sample of 60000 of depth 4") + " over + - * / ^ neg sgn with leaf / compact-term operands")
+    items = [("tree", s) for s in sks + eqs + ch] + [("rewrite", s) for s in starts]
     random.Random(seed()).shuffle(items)
     collect(rep, pmap(worker, items, budget_s=420 if tier == "quick" else 3000, chunk=8))
     return rep.finish(required_reach=["tree", "rewrite"])
